@@ -59,6 +59,7 @@ type Result struct {
 	FramesOut  int              `json:"frames_out"`
 	FramesIn   int              `json:"frames_in"`
 	Extra      map[string]int64 `json:"extra,omitempty"`
+	Transcript []string         `json:"transcript,omitempty"`
 }
 
 // rng is splitmix64 for the generators (run-time choices come from the kernel tape instead).
